@@ -118,6 +118,12 @@ assumption("A-ASYNC", "async generators are read as their synchronous counterpar
 import copy as _copy
 _SBA = dict(_SB)
 _SBA["loops"] = dict(_SB["loops"])
+_SBA["loops"][1] = Loop(inv=[
+    "_k == len(buffer)", "_k == consumed(iterable)", "_k <= buffer_size",
+    "len(out) == 0", "buffer_size >= 1",
+    "ms_eq(mset(buffer), pmset(iterable))",
+    "not failed()", "not exhausted(iterable)",
+], variant="buffer_size - _k")
 # third loop: `for element in buffer: yield element` (instead of yield from)
 _SBA["loops"][3] = Loop(inv=[
     "0 <= _k and _k <= len(buffer)",
